@@ -1,5 +1,6 @@
 SPECIFICATION Spec
 CONSTANTS
+  ThermalOn = FALSE
   MaxNodes = 3
   MaxChords = 1
   Demands <- DemandsSmall
@@ -10,7 +11,10 @@ CONSTANTS
   ChordFlows <- ChordFlowsSmall
   Kinds <- KindsAll
   EmitOn = FALSE
-  MaxSteps = 3
+  MaxSteps = 2
+  FdVals = {1}
+  TeVals = {1}
+  DtVals = {0}
 INVARIANT InvBalance
 INVARIANT InvOrientationFree
 INVARIANT InvShift
